@@ -16,7 +16,7 @@ import (
 func init() {
 	register(&propDef{
 		id:      "C04",
-		explain: "Structural necessary conditions of 'a client call returns the response to its own request': (R1) in the transport's RoundTrip a connection obtained from AcquireConn is, on every path, closed, released to the pool, or handed to the stream-close closure exactly once; (R2) it is released to the pool only on paths where the response was read without error; (R3) inside the stream-close closure the connection is pooled only under a condition that depends on the body having been read to its end (and on the close decision and the caller's error); (R4) in the pipelining client a work item is given back to the pool by the caller only when it was never queued or its completion was received - never after a timeout while the connection goroutines still hold it; the pipeline writer hands every request it wrote either to the reader queue or completes it with an error and stops; (R5) response-header fields that closure consults live and that the transport did not also capture when it built the closure (recomputed on every run; none on today's tree, where the stream remembers its declared length and the close flag is captured) are never reset before the body stream of the same Response is closed, in any function of the module; (R6) the connection's buffered reader is returned to its pool by RoundTrip itself exactly on the paths on which no body stream reading through it is handed to the caller (there the stream-close callback returns it); (R7) every client function that reads a response off a connection for a request has consulted the request's IsHead() on every path to that read and stores SkipBody = true under it - a HEAD response announces a length but carries no body, and reading one would take the next response's bytes for it. Not decided: interleavings, slow or partial servers, byte-level framing of responses (C03's mirror).",
+		explain: "Structural necessary conditions of 'a client call returns the response to its own request': (R1) in the transport's RoundTrip a connection obtained from AcquireConn is, on every path, closed, released to the pool, or handed to the stream-close closure exactly once; (R2) it is released to the pool only on paths where the response was read without error; (R3) inside the stream-close closure the connection is pooled only under a condition that depends on the body having been read to its end (and on the close decision and the caller's error); (R4) in the pipelining client a work item is given back to the pool by the caller only when it was never queued or its completion was received - never after a timeout while the connection goroutines still hold it; the pipeline writer hands every request it wrote either to the reader queue or completes it with an error and stops; (R5) response-header fields that closure consults live and that the transport did not also capture when it built the closure (recomputed on every run; none on today's tree, where the stream remembers its declared length and the close flag is captured) are never reset before the body stream of the same Response is closed, in any function of the module; (R6) the connection's buffered reader is returned to its pool by RoundTrip itself exactly on the paths on which no body stream reading through it is handed to the caller (there the stream-close callback returns it); (R7) every client function that reads a response off a connection for a request has consulted the request's IsHead() on every path to that read and stores SkipBody = true under it - a HEAD response announces a length but carries no body, and reading one would take the next response's bytes for it. (R8) where the client itself raises Response.SkipBody on the caller's Response (HEAD exchanges), the caller's value is stored back on every path before the function returns or signals completion, so the flag cannot stick to a reused Response object and leave a later GET body unread on the connection. Not decided: interleavings, slow or partial servers, byte-level framing of responses (C03's mirror).",
 		run:     runC04,
 	})
 	register(&propDef{
@@ -199,6 +199,7 @@ func runC04(p *Prog, r *Report) {
 		}
 	}
 	headSkipsBodyRule(p, r)
+	skipBodyRestoredRule(p, r)
 	// R4a: pipelineWork typestate in the callers
 	runPipelineCaller(p, r, "C04")
 	// R4b: the writer
@@ -1172,4 +1173,80 @@ func headSkipsBodyRule(p *Prog, r *Report) {
 		}
 	}
 	r.Floor("R7", "response reads in the client", n, 2)
+}
+
+// skipBodyRestoredRule (C04.R8): Response.SkipBody is a caller-owned setting.
+// Where the client raises it itself (for the exchange of a HEAD request), the
+// caller's value is put back before the response is handed back: no return and
+// no send on a channel (the pipeline client signals completion that way) is
+// reachable from the raising store without a store of a value that was loaded
+// from the same field. Otherwise the flag sticks to the Response object and a
+// later GET through the same object leaves its body unread on the keep-alive
+// connection, where it is taken for the response to the next request.
+func skipBodyRestoredRule(p *Prog, r *Report) {
+	n := 0
+	for _, fn := range p.funcsIn("") {
+		if !strings.HasSuffix(p.Fset.Position(fn.Pos()).Filename, "client.go") {
+			continue
+		}
+		for _, b := range fn.Blocks {
+			for _, in := range b.Instrs {
+				st, ok := in.(*ssa.Store)
+				if !ok {
+					continue
+				}
+				_, fv := fieldOfAddr(st.Addr)
+				if fv == nil || fv.Name() != "SkipBody" {
+					continue
+				}
+				if c, isC := st.Val.(*ssa.Const); !isC || c.Value == nil || c.Value.ExactString() != "true" {
+					continue
+				}
+				n++
+				restores := func(i ssa.Instruction) bool {
+					s2, ok := i.(*ssa.Store)
+					if !ok {
+						return false
+					}
+					if _, f2 := fieldOfAddr(s2.Addr); f2 != fv {
+						return false
+					}
+					return loadsFieldThroughPhis(s2.Val, fv, map[ssa.Value]bool{})
+				}
+				handsBack := func(i ssa.Instruction) bool {
+					if isReturn(i) {
+						return true
+					}
+					_, isSend := i.(*ssa.Send)
+					return isSend
+				}
+				hit, path := reachAvoiding(fn, st, handsBack, restores, nil)
+				pos := st.Pos()
+				r.Check("R8", fmt.Sprintf("%s: after raising Response.SkipBody itself the client puts the caller's value back before handing the response back", funcName(fn)), hit == nil, p.Pos(pos),
+					"the flag stays raised on the caller's Response object: reused for a GET, the body is not read and stays on the keep-alive connection, where it is parsed as the response to the next request", blocksString(p, path)...)
+			}
+		}
+	}
+	r.Floor("R8", "places where the client raises Response.SkipBody", n, 2)
+}
+
+// loadsFieldThroughPhis: v is a load of the given field (possibly merged).
+func loadsFieldThroughPhis(v ssa.Value, fv *types.Var, seen map[ssa.Value]bool) bool {
+	if seen[v] {
+		return true
+	}
+	seen[v] = true
+	switch v := v.(type) {
+	case *ssa.UnOp:
+		_, f := loadedField(v)
+		return f == fv
+	case *ssa.Phi:
+		for _, e := range v.Edges {
+			if !loadsFieldThroughPhis(e, fv, seen) {
+				return false
+			}
+		}
+		return true
+	}
+	return false
 }
